@@ -293,11 +293,18 @@ def run(tier, rep):
     conc_total = {'runs': 0, 'shared_runs': 0, 'repl_sessions': 0, 'fresh_gomodule_imports': 0, 'yields_injected': 0, 'instructions_observed': 0}
     races_all = []
     configs = [(16, 6, 50), (4, 10, 7), (2, 12, 0)] if tier == 'quick' else [(16, 60, 50), (64, 20, 200), (4, 100, 7), (2, 100, 3), (16, 40, 0)]
+    # the last configuration runs only the observers of process-wide resources (Go module functions with fresh values, type introspection, recursion depth),
+    # so that every goroutine is inside the same few Go functions at the same time
+    hot = [p for p in progs if p['id'] in ('O:gomod.calls', 'O:type.introspection', 'O:deep.recursion', 'O:recursion.limit', 'P:subclass.builtins')]
+    configs = configs + [(16, 3 if tier == 'quick' else 30, -1)]
     for ci, (N, rounds, density) in enumerate(configs):
         d = common.scratch_dir('cctx-')
         inp = os.path.join(d, 'in.json')
+        progs_here = progs
+        if density == -1:
+            progs_here, density = hot, 0
         with open(inp, 'w') as f:
-            json.dump({'programs': progs, 'shared_src': SHARED, 'shared_solo': solo['shared'], 'rounds': rounds, 'goroutines': N, 'density': density, 'repl': True}, f)
+            json.dump({'programs': progs_here, 'shared_src': SHARED, 'shared_solo': solo['shared'], 'rounds': rounds, 'goroutines': N, 'density': density, 'repl': True}, f)
         env = common.go_env()
         env['GORACE'] = 'halt_on_error=0 log_path=%s' % os.path.join(d, 'race')
         outp = os.path.join(d, 'out.json')
